@@ -1,25 +1,46 @@
 ------------------------------ MODULE Security ------------------------------
 (* Process-wide restrictions on the files a read may use (lib/libeconf.c econf_requireOwner,
-   econf_requireGroup, econf_followSymlinks, econf_reset_security_settings; applied by
-   read_file_with_callback to EVERY file of EVERY read before the callback is asked).
+   econf_requireGroup, econf_followSymlinks, econf_requirePermissions, econf_reset_security_settings;
+   applied by read_file_with_callback to EVERY file of EVERY read before the callback is asked).
 
-   flags = [owner, group, nosym]     restrictions in force
-   attrs[f] = [own, grp, link]       own/grp \in {"ok","foreign"}; link: the path is a symbolic link
-   A main file of kind "devnull" is a symbolic link by construction.                          *)
+   The settings are a small state machine: every setter changes ITS OWN setting only and a setting keeps
+   the value of the last call; the reset call returns all of them to "none".
+
+   flags = [owner, group, nosym, perms]
+      owner, group \in {"none", "ok", "foreign"}   the uid / gid asked for: none, the one the files usually have, another one
+      nosym        \in BOOLEAN                     symbolic links are refused
+      perms        \in {"none", "lenient", "strict"} permission masks: none, masks every file satisfies, a file mask that
+                                                    files of attribute perm = "bad" do not satisfy (the directory mask is
+                                                    always satisfied)
+   attrs[f] = [own, grp, link, perm]   own/grp \in {"ok","foreign"}; link: the path is a symbolic link; perm \in {"ok","bad"}
+   A main file of kind "devnull" is a symbolic link by construction.  The permission bits looked at are those of the
+   directory entry itself (lstat): a symbolic link always satisfies a file mask.                       *)
 EXTENDS Layers
 
-NoFlags == [owner |-> FALSE, group |-> FALSE, nosym |-> FALSE]
-RequireOwner(fl)  == [fl EXCEPT !.owner = TRUE]
-RequireGroup(fl)  == [fl EXCEPT !.group = TRUE]
+NoFlags == [owner |-> "none", group |-> "none", nosym |-> FALSE, perms |-> "none"]
+RequireOwner(fl, who) == [fl EXCEPT !.owner = who]
+RequireGroup(fl, who) == [fl EXCEPT !.group = who]
 ForbidSymlinks(fl) == [fl EXCEPT !.nosym = TRUE]
 AllowSymlinks(fl) == [fl EXCEPT !.nosym = FALSE]
+RequirePerms(fl, how) == [fl EXCEPT !.perms = how]
 ResetFlags(fl)    == NoFlags
+\* one recorded setter call [op, arg]
+ApplySetter(fl, c) ==
+  CASE c.op = "requireowner" -> RequireOwner(fl, c.arg)
+    [] c.op = "requiregroup" -> RequireGroup(fl, c.arg)
+    [] c.op = "followsymlinks" -> IF c.arg = "on" THEN AllowSymlinks(fl) ELSE ForbidSymlinks(fl)
+    [] c.op = "requireperms" -> RequirePerms(fl, c.arg)
+    [] c.op = "resetsec" -> ResetFlags(fl)
+    [] OTHER -> fl
+RECURSIVE ApplySetters(_, _)
+ApplySetters(fl, cs) == IF cs = <<>> THEN fl ELSE ApplySetters(ApplySetter(fl, Head(cs)), Tail(cs))
 
 IsLink(tree, attrs, f) == attrs[f].link \/ (f.r = 0 /\ tree.main[f.l] = "devnull")
 Violations(tree, attrs, fl, f) ==
   (IF fl.nosym /\ IsLink(tree, attrs, f) THEN {"symlink"} ELSE {})
-  \cup (IF fl.owner /\ attrs[f].own = "foreign" THEN {"owner"} ELSE {})
-  \cup (IF fl.group /\ attrs[f].grp = "foreign" THEN {"group"} ELSE {})
+  \cup (IF fl.owner # "none" /\ attrs[f].own # fl.owner THEN {"owner"} ELSE {})
+  \cup (IF fl.group # "none" /\ attrs[f].grp # fl.group THEN {"group"} ELSE {})
+  \cup (IF fl.perms = "strict" /\ attrs[f].perm = "bad" /\ ~IsLink(tree, attrs, f) THEN {"fileperm"} ELSE {})
 FaultsOf(tree, attrs, fl) == [f \in AllFiles(tree) |-> Violations(tree, attrs, fl, f)]
-PlainAttrs(tree) == [f \in AllFiles(tree) |-> [own |-> "ok", grp |-> "ok", link |-> FALSE]]
+PlainAttrs(tree) == [f \in AllFiles(tree) |-> [own |-> "ok", grp |-> "ok", link |-> FALSE, perm |-> "ok"]]
 =============================================================================
